@@ -53,6 +53,7 @@ var tokens = [...]string{
 	RESERVE:     "@reserve",
 	INSERT:      "@insert",
 	FOR:         "@for",
+	EACH:        "@each",
 	BREAK:       "@break",
 	CONTINUE:    "@continue",
 	BREAK_IF:    "@breakIf",
@@ -63,6 +64,7 @@ var tokens = [...]string{
 	END:         "@end",
 	COMPONENT:   "@component",
 	SLOT:        "@slot",
+	DUMP:        "@dump",
 }
 
 func String(t TokenType) string {
